@@ -250,10 +250,14 @@ func (w *world) saveInTask(r *replica, f []string) {
 				}
 				fired = true
 				w.feat["save-inside-task"] = true
+				// what runs now is the snapshot worker, not the apply path
+				was := w.cur
+				w.cur = "save." + r.name
 				var err error
 				if idx, err = r.node.DoSave(req); err != nil {
 					panic(err)
 				}
+				w.cur = was
 			}
 		}
 		w.deliverTo(r, pend)
@@ -385,7 +389,8 @@ func (w *world) restartAndStream(f []string) {
 	window := nb.view().OnDiskInitIndex + 1
 	pos := idx
 	for {
-		if pos <= window {
+		// only a replica that has a membership (a leader always has) is asked to stream
+		if pos <= window && len(nb.sm.GetMembership().Addresses) > 0 {
 			if pos < window-1 {
 				w.feat["stream-request-in-replay-window"] = true
 			}
@@ -720,7 +725,11 @@ func runCase(line string, st *vh.Stats) []string {
 			}
 			st.Count("panic")
 			w.feat["panic"] = true
-			if strings.HasPrefix(w.cur, "B.") || strings.HasPrefix(w.cur, "C.") {
+			// a snapshot asked of a replica that has no membership yet is answered with
+			// the `empty membership` panic of getSSMeta: inconclusive, not a violation
+			if strings.Contains(msg, "empty membership") {
+				st.Count("inconclusive: snapshot on a replica without membership")
+			} else if strings.HasPrefix(w.cur, "B.") || strings.HasPrefix(w.cur, "C.") {
 				// the uninterrupted replica applied the same log without stopping
 				w.viol = append(w.viol, fmt.Sprintf("CUT-REPLICA-PANIC during %s at op %d [%s]: %s", w.cur, k, o, msg))
 			}
